@@ -4,6 +4,7 @@ from algebra import El, ZERO, ONE
 from core import (order_facts, sign_established, Harness, sv, sm, sq, ss, Run, Conv, run_specs, report_dropped, ret_leaves, cmp_struct, single_ret, parse_guard, flat)
 import facts
 import specs
+import c05
 
 PROP = 'C09'
 
@@ -40,6 +41,9 @@ def build():
     h.root('b3_look_at', g + '(d: %s, u: %s) -> Basis3<S>' % (V, V), '<Basis3<S> as Rotation>::look_at(d, u)', ('view3', 'lh', False))
     h.root('q_look_at', g + '(d: %s, u: %s) -> Quaternion<S>' % (V, V), '<Quaternion<S> as Rotation>::look_at(d, u)', ('qlook', 'code'))
     h.root('ref_q_look_at', g + '(d: %s, u: %s) -> Quaternion<S>' % (V, V), 'Quaternion::from(Matrix3::look_to_lh(d, u))', ('qlook', 'ref'))
+    # Quaternion::look_at (and Decomposed<_, Quaternion>) is the Matrix3 view rotation converted to a quaternion: that the conversion
+    # returns a quaternion of the SAME rotation is the matrix-to-quaternion rule of C05, applied here to the code this check depends on
+    h.root('dep_q_from_m3', g + '(a: Matrix3<S>) -> Quaternion<S>', 'Quaternion::from(a)', ('mat2quat', 'a0'))
     # 2-D
     V2 = 'Vector2<S>'
     h.root('m2_look_at', g + '(d: %s, u: %s) -> Matrix2<S>' % (V2, V2), 'Matrix2::look_at(d, u)', ('view2', True))
@@ -327,7 +331,7 @@ def run(tier):
     h = build()
     S, inv, meta = facts.extract(PROP, h.src())
     report_dropped(run, meta)
-    run_specs(run, S, h, custom={'view2t': check_view2t, 'view4': check_view4, 'view3': check_view3, 'viewdec': check_viewdec, 'viewdecq': check_viewdecq, 'qlook': check_qlook, 'view2': check_view2})
+    run_specs(run, S, h, custom={'mat2quat': c05.check_mat2quat, 'view2t': check_view2t, 'view4': check_view4, 'view3': check_view3, 'viewdec': check_viewdec, 'viewdecq': check_viewdecq, 'qlook': check_qlook, 'view2': check_view2})
     run.floor('roots', len(run.roots), len(h.specs))
     run.assumed.update(A.CTX.assumed)
     return run.finish(
